@@ -163,7 +163,8 @@ def marginals(vs, fs, limit=LEAF_LIMIT):
             raise BadBN("undeclared-variable", "factor for undeclared variable %s" % rv)
         for p in parents:
             if p not in vs:
-                raise BadBN("dangling-parent", "parent %s of %s is not a variable of the network" % (p, rv))
+                raise BadBN("dangling-choice-parent" if str(p).startswith("choice(") else "dangling-parent",
+                            "parent %s of %s is not a variable of the network" % (p, rv))
     order, seen, tmp = [], set(), set()
     sys.setrecursionlimit(max(10000, sys.getrecursionlimit()))
 
